@@ -45,7 +45,12 @@ CONSTANTS
   PowerLoss,    \* TRUE: a crash also drops unsynced block file tails
   MaxCrash,     \* crashes overall
   FlushModes,   \* subset of BOOLEAN: may a commit flush / not flush
-  AllowRestart  \* TRUE: clean Close + Open between transactions
+  AllowRestart, \* TRUE: clean Close + Open between transactions
+  MaxCur,       \* cursor operations per transaction (0: no explicit cursors)
+  CurSeeks,     \* TRUE: cursors also Seek
+  PutPaths,     \* buckets in which Put/Delete are exercised
+  BucketOps,    \* TRUE: CreateBucket/DeleteBucket are exercised
+  PreBuckets    \* buckets (depth 1) that exist, flushed, before the behaviour starts
 
 VARIABLES
   ldb, ck, cr,      \* durable map; cached puts (function) and removes (set)
@@ -56,11 +61,12 @@ VARIABLES
   model, recov,     \* property layer
   up,               \* process running (FALSE between Crash and Reopen)
   everPruned,       \* history: file numbers deleted by pruning
+  rolledRaw,        \* history: files closed by a roll-over while not fully synced
   cnt,              \* budgets used
   last,             \* the step just taken (read by the harness)
   obs               \* what the harness must observe after the step
 
-vars == <<ldb, ck, cr, files, wc, txs, cm, model, recov, up, everPruned, cnt, last, obs>>
+vars == <<ldb, ck, cr, files, wc, txs, cm, model, recov, up, everPruned, rolledRaw, cnt, last, obs>>
 
 -----------------------------------------------------------------------------
 Keys   == {KeyOrder[i]   : i \in DOMAIN KeyOrder}
@@ -129,6 +135,14 @@ Unreadable(E, F) == {b \in AbsBlk(E) : ~Readable(F, E[IKey(b)], b)}
 PruneDangling(E, F) ==
   {b \in AbsBlk(E) : E[IKey(b)].f \in everPruned /\ ~Readable(F, E[IKey(b)], b)}
 
+\* ... and the ones in a file that a roll-over closed without syncing it (the
+\* later metadata flush only syncs the then-current file), which a power
+\* loss may have cut.
+RollDangling(E, F) ==
+  {b \in AbsBlk(E) : E[IKey(b)].f \in rolledRaw /\ ~Readable(F, E[IKey(b)], b)}
+
+Excused(E, F) == PruneDangling(E, F) \cup RollDangling(E, F)
+
 -----------------------------------------------------------------------------
 \* Property-layer operations.
 MPut(m, p, k, v) == [m EXCEPT !.kv[p] = (k :> v) @@ @]
@@ -140,9 +154,10 @@ MPrune(m, S)     == [m EXCEPT !.blk = @ \ S]
 
 -----------------------------------------------------------------------------
 \* Transactions.
+NoCur == [st |-> "none", p |-> <<>>, e |-> <<"k", "">>, fresh |-> FALSE, n |-> 0]
 ClosedTx == [st |-> "closed", rw |-> FALSE, snap |-> EmptyFn, pk |-> EmptyFn, pr |-> {},
              pb |-> <<>>, pd |-> <<>>, m |-> [kv |-> EmptyFn, blk |-> {}],
-             nops |-> 0, pruned |-> FALSE]
+             nops |-> 0, pruned |-> FALSE, cur |-> NoCur]
 
 NoCm == [ph |-> "none", i |-> 0, fl |-> FALSE, old |-> [f |-> 0, o |-> 0],
          nf |-> 0, err |-> FALSE, st |-> 0]
@@ -167,8 +182,15 @@ RenderM(m) ==
 
 \* io: blocks the implementation layer predicts to be indexed but unreadable
 \* in that view (non-empty only for the known pruning defects).
-RenderV(m, io) == [kv |-> RenderM(m).kv, blk |-> m.blk, io |-> io]
-ObsTx(t) == RenderV(t.m, Unreadable(TxEff(t), files) \ PendBlocks(t))
+RenderV(m, io) == [kv |-> RenderM(m).kv, blk |-> m.blk, io |-> io,
+                   ior |-> {b \in io : Eff[IKey(b)].f \in rolledRaw}]
+\* the explicit cursor of a transaction: where it stands and, when it has
+\* moved since the last update, the value there
+RenderCur(t) ==
+  [st |-> t.cur.st, e |-> t.cur.e, fresh |-> t.cur.fresh,
+   v |-> IF t.cur.st = "at" /\ t.cur.fresh /\ t.cur.e[1] = "k" THEN <<t.m.kv[t.cur.p][t.cur.e[2]]>> ELSE <<>>]
+ObsTx(t) == [kv |-> RenderM(t.m).kv, blk |-> t.m.blk,
+             io |-> Unreadable(TxEff(t), files) \ PendBlocks(t), cur |-> RenderCur(t)]
 Obs ==
   [up |-> up,
    db |-> IF up /\ Idle THEN RenderV(model, Unreadable(Eff, files))
@@ -177,8 +199,13 @@ Obs ==
    recov |-> {RenderM(r) : r \in recov \cup (IF cm.ph # "none" THEN {txs[W].m} ELSE {})}]
 
 -----------------------------------------------------------------------------
-InitLdb == (WKey :> [f |-> 0, o |-> 0]) @@ (CKey :> 1)
-InitModel == [kv |-> (<<>> :> EmptyFn), blk |-> {}]
+\* PreBuckets are created by one flushed transaction before the first step,
+\* in NameOrder, so they get the bucket ids 2, 3, ...
+PreSeq == SelectSeq(NameOrder, LAMBDA n : <<n>> \in PreBuckets)
+InitLdb == (WKey :> [f |-> 0, o |-> 0]) @@ (CKey :> 1 + Len(PreSeq))
+           @@ [rk \in {BKey(0, PreSeq[i]) : i \in DOMAIN PreSeq} |->
+                 1 + (CHOOSE i \in DOMAIN PreSeq : PreSeq[i] = rk[3])]
+InitModel == [kv |-> [p \in {<<>>} \cup {<<PreSeq[i]>> : i \in DOMAIN PreSeq} |-> EmptyFn], blk |-> {}]
 
 Init ==
   /\ ldb = InitLdb /\ ck = EmptyFn /\ cr = {}
@@ -188,12 +215,12 @@ Init ==
   /\ cm = NoCm
   /\ model = InitModel /\ recov = {InitModel}
   /\ up = TRUE
-  /\ everPruned = {}
+  /\ everPruned = {} /\ rolledRaw = {}
   /\ cnt = [tx |-> 0, rd |-> 0, crash |-> 0]
   /\ last = [a |-> "Init", keys |-> KeyOrder, vals |-> ValSet, names |-> NameOrder,
               depth |-> MaxDepth, blocks |-> BlockOrder,
               rawlen |-> [i \in DOMAIN BlockOrder |-> RawLen[BlockOrder[i]]],
-              limit |-> Limit, target |-> PruneTarget, power |-> PowerLoss]
+              limit |-> Limit, target |-> PruneTarget, power |-> PowerLoss, pre |-> PreSeq]
   /\ obs = Obs
 
 -----------------------------------------------------------------------------
@@ -205,41 +232,41 @@ Begin(h) ==
                                                  !.snap = Eff, !.m = model]]
   /\ cnt' = IF h = W THEN [cnt EXCEPT !.tx = @ + 1] ELSE [cnt EXCEPT !.rd = @ + 1]
   /\ last' = [a |-> "Begin", h |-> h]
-  /\ UNCHANGED <<ldb, ck, cr, files, wc, cm, model, recov, up, everPruned>>
+  /\ UNCHANGED <<ldb, ck, cr, files, wc, cm, model, recov, up, everPruned, rolledRaw>>
 
 Rollback(h) ==
   /\ up /\ Idle /\ txs[h].st = "open"
   /\ txs' = [txs EXCEPT ![h] = ClosedTx]
   /\ last' = [a |-> "Rollback", h |-> h]
-  /\ UNCHANGED <<ldb, ck, cr, files, wc, cm, model, recov, up, everPruned, cnt>>
+  /\ UNCHANGED <<ldb, ck, cr, files, wc, cm, model, recov, up, everPruned, rolledRaw, cnt>>
 
 \* Writer operations (db.go bucket.Put/Delete/CreateBucket/DeleteBucket,
 \* transaction.StoreBlock/PruneBlocks).
-WOpen == up /\ Idle /\ txs[W].st = "open" /\ txs[W].nops < MaxOps
+WOpen == up /\ Idle /\ txs[W].st = "open" /\ txs[W].nops < MaxOps /\ txs[W].cur.st = "none"
 WUpd(t2, l) ==
   /\ txs' = [txs EXCEPT ![W] = [t2 EXCEPT !.nops = @ + 1]]
   /\ last' = l
-  /\ UNCHANGED <<ldb, ck, cr, files, wc, cm, model, recov, up, everPruned, cnt>>
+  /\ UNCHANGED <<ldb, ck, cr, files, wc, cm, model, recov, up, everPruned, rolledRaw, cnt>>
 
 PutKey(t, rk, v) == [t EXCEPT !.pr = @ \ {rk}, !.pk = (rk :> v) @@ @]
 DelKeys(t, S)    == [t EXCEPT !.pk = Without(@, S), !.pr = @ \cup S]
 
 Put(p, k, v) ==
-  /\ WOpen
+  /\ WOpen /\ p \in PutPaths
   /\ LET t == txs[W] id == IdOf(TxEff(t), p) IN
      /\ id # -1
      /\ WUpd([PutKey(t, KKey(id, k), v) EXCEPT !.m = MPut(t.m, p, k, v)],
              [a |-> "Put", p |-> p, k |-> k, v |-> v])
 
 Delete(p, k) ==
-  /\ WOpen
+  /\ WOpen /\ p \in PutPaths
   /\ LET t == txs[W] id == IdOf(TxEff(t), p) IN
      /\ id # -1
      /\ WUpd([DelKeys(t, {KKey(id, k)}) EXCEPT !.m = MDel(t.m, p, k)],
              [a |-> "Delete", p |-> p, k |-> k])
 
 CreateBucket(p) ==
-  /\ WOpen /\ p # <<>>
+  /\ WOpen /\ p # <<>> /\ BucketOps
   /\ LET t == txs[W] E == TxEff(t) pid == IdOf(E, Parent(p)) IN
      /\ pid # -1 /\ IdOf(E, p) = -1
      /\ LET new == E[CKey] + 1
@@ -247,7 +274,7 @@ CreateBucket(p) ==
         WUpd([t1 EXCEPT !.m = MCreate(t.m, p)], [a |-> "CreateBucket", p |-> p])
 
 DeleteBucket(p) ==
-  /\ WOpen /\ p # <<>>
+  /\ WOpen /\ p # <<>> /\ BucketOps
   /\ LET t == txs[W] E == TxEff(t) IN
      /\ IdOf(E, p) # -1
      /\ LET ids == {IdOf(E, q) : q \in {x \in BPaths : IsPrefix(p, x) /\ IdOf(E, x) # -1}}
@@ -296,6 +323,72 @@ Prune ==
           [a |-> "Prune", ret |-> gone, del |-> SortedNums(D)])
 
 -----------------------------------------------------------------------------
+\* An explicit cursor held by a transaction (db.go cursor).  Property layer:
+\* the cursor ranges over the entries of bucket p in the transaction's view --
+\* keys in byte order, then nested buckets in byte order; Next / Prev move to
+\* the nearest entry after / before the current one; Delete removes the
+\* current key without invalidating the cursor.  While a cursor is open the
+\* transaction is updated only through Cursor.Delete (what an insert does to
+\* a positioned cursor is left unspecified by the interface).
+IndexOf(seq, x) == CHOOSE i \in DOMAIN seq : seq[i] = x
+Pos(e) == IF e[1] = "k" THEN IndexOf(KeyOrder, e[2]) ELSE Len(KeyOrder) + IndexOf(NameOrder, e[2])
+Entries(m, p) == {<<"k", k>> : k \in DOMAIN m.kv[p]}
+                   \cup {<<"b", n>> : n \in {x \in Names : Append(p, x) \in DOMAIN m.kv}}
+PlaceMin(c, S) == IF S = {} THEN [c EXCEPT !.st = "end", !.fresh = TRUE]
+                  ELSE [c EXCEPT !.st = "at", !.fresh = TRUE,
+                                 !.e = CHOOSE e \in S : \A f \in S : Pos(e) <= Pos(f)]
+PlaceMax(c, S) == IF S = {} THEN [c EXCEPT !.st = "end", !.fresh = TRUE]
+                  ELSE [c EXCEPT !.st = "at", !.fresh = TRUE,
+                                 !.e = CHOOSE e \in S : \A f \in S : Pos(f) <= Pos(e)]
+
+CurCan(h) == up /\ Idle /\ txs[h].st = "open" /\ txs[h].cur.n < MaxCur
+CurSet(h, c, l) ==
+  /\ txs' = [txs EXCEPT ![h].cur = [c EXCEPT !.n = @ + 1]]
+  /\ last' = l @@ [a |-> "Cur", h |-> h, ret |-> c.st = "at"]
+  /\ UNCHANGED <<ldb, ck, cr, files, wc, cm, model, recov, up, everPruned, rolledRaw, cnt>>
+
+CurOpen(h, p) ==
+  /\ CurCan(h) /\ txs[h].cur.st = "none"
+  /\ p # <<>> /\ p \in DOMAIN txs[h].m.kv
+  /\ CurSet(h, [txs[h].cur EXCEPT !.st = "new", !.p = p], [op |-> "Open", p |-> p])
+
+CurMove(h, op) ==
+  /\ CurCan(h) /\ txs[h].cur.st # "none"
+  /\ LET c == txs[h].cur
+         E == Entries(txs[h].m, c.p)
+         after  == {f \in E : Pos(f) > Pos(c.e)}
+         before == {f \in E : Pos(f) < Pos(c.e)}
+         stay == [c EXCEPT !.fresh = TRUE] IN
+     CurSet(h, CASE op = "First" -> PlaceMin(c, E)
+                 [] op = "Last"  -> PlaceMax(c, E)
+                 [] op = "Next"  -> IF c.st = "at" THEN PlaceMin(c, after) ELSE stay
+                 [] op = "Prev"  -> IF c.st = "at" THEN PlaceMax(c, before) ELSE stay,
+            [op |-> op])
+
+CurSeek(h, k) ==
+  /\ CurCan(h) /\ txs[h].cur.st # "none"
+  /\ LET c == txs[h].cur
+         E == Entries(txs[h].m, c.p) IN
+     CurSet(h, PlaceMin(c, {f \in E : Pos(f) >= Pos(<<"k", k>>)}), [op |-> "Seek", k |-> k])
+
+CurDelete ==
+  /\ CurCan(W)
+  /\ LET t == txs[W] c == t.cur IN
+     /\ c.st = "at" /\ c.fresh /\ c.e[1] = "k"
+     /\ LET id == IdOf(TxEff(t), c.p)
+            t2 == [DelKeys(t, {KKey(id, c.e[2])}) EXCEPT !.m = MDel(t.m, c.p, c.e[2]),
+                                                       !.cur = [c EXCEPT !.fresh = FALSE, !.n = @ + 1]] IN
+        /\ txs' = [txs EXCEPT ![W] = t2]
+        /\ last' = [a |-> "Cur", h |-> W, op |-> "Delete", ret |-> TRUE]
+        /\ UNCHANGED <<ldb, ck, cr, files, wc, cm, model, recov, up, everPruned, rolledRaw, cnt>>
+
+CurOps ==
+  \/ \E h \in Handles, p \in BPaths : CurOpen(h, p)
+  \/ \E h \in Handles, op \in {"First", "Last", "Next", "Prev"} : CurMove(h, op)
+  \/ (CurSeeks /\ \E h \in Handles, k \in Keys : CurSeek(h, k))
+  \/ CurDelete
+
+-----------------------------------------------------------------------------
 \* Commit = transaction.writePendingAndCommit + dbCache.commitTx, one step
 \* per I/O call.  A step is either internal (no I/O: "int") or one I/O call
 \* ("io") that succeeds, fails (injected) or, for the block payload write,
@@ -317,7 +410,7 @@ CommitStart(fl) ==
   /\ txs' = [txs EXCEPT ![W].st = "commit"]
   /\ cm' = [NoCm EXCEPT !.ph = "del", !.i = 1, !.fl = fl, !.old = [f |-> wc.f, o |-> wc.o]]
   /\ last' = [a |-> "CommitStart", fl |-> fl]
-  /\ UNCHANGED <<ldb, ck, cr, files, wc, model, recov, up, everPruned, cnt>>
+  /\ UNCHANGED <<ldb, ck, cr, files, wc, model, recov, up, everPruned, rolledRaw, cnt>>
 
 \* 1. delete the files scheduled by pruning.
 StepDel ==
@@ -325,7 +418,7 @@ StepDel ==
   /\ LET t == txs[W] IN
      IF cm.i > Len(t.pd)
      THEN /\ CStep([cm EXCEPT !.ph = "blk", !.i = 1], Internal("del-done"))
-          /\ UNCHANGED <<ldb, ck, cr, files, wc, txs, everPruned>>
+          /\ UNCHANGED <<ldb, ck, cr, files, wc, txs, everPruned, rolledRaw>>
      ELSE \E res \in Fails :
           LET f == t.pd[cm.i] ok == res = "ok" /\ f \in DOMAIN files IN
           /\ files' = IF ok THEN Without(files, {f}) ELSE files
@@ -333,7 +426,7 @@ StepDel ==
           /\ CStep(IF ok THEN [Faulted(res) EXCEPT !.i = @ + 1]
                    ELSE [Faulted(res) EXCEPT !.ph = "end", !.err = TRUE],
                    Io("delete", f, IF ok THEN "ok" ELSE "fail"))
-          /\ UNCHANGED <<ldb, ck, cr, wc, txs>>
+          /\ UNCHANGED <<ldb, ck, cr, wc, txs, rolledRaw>>
 
 \* 2. per pending block: roll over when the record does not fit ...
 StepBlk ==
@@ -341,10 +434,13 @@ StepBlk ==
   /\ LET t == txs[W] IN
      IF cm.i > Len(t.pb)
      THEN /\ CStep([cm EXCEPT !.ph = "wloc"], Internal("blocks-done"))
-          /\ UNCHANGED <<ldb, ck, cr, files, wc, txs, everPruned>>
+          /\ UNCHANGED <<ldb, ck, cr, files, wc, txs, everPruned, rolledRaw>>
      ELSE LET roll == wc.o + RecLen(t.pb[cm.i]) > Limit
               wc2  == IF roll THEN [f |-> wc.f + 1, o |-> 0, open |-> FALSE] ELSE wc IN
           /\ wc' = wc2
+          \* the file left behind is closed without Sync
+          /\ rolledRaw' = IF roll /\ wc.f \in DOMAIN files /\ files[wc.f].synced < files[wc.f].len
+                          THEN rolledRaw \cup {wc.f} ELSE rolledRaw
           /\ CStep([cm EXCEPT !.ph = IF wc2.open THEN "w1" ELSE "open", !.st = wc2.o],
                    Internal(IF roll THEN "roll" ELSE "noroll"))
           /\ UNCHANGED <<ldb, ck, cr, files, txs, everPruned>>
@@ -361,7 +457,7 @@ StepOpen ==
         ELSE UNCHANGED <<wc, files>>
      /\ CStep([Faulted(res) EXCEPT !.ph = IF res = "ok" THEN "w1" ELSE "rb"],
               Io("openwrite", wc.f, res))
-     /\ UNCHANGED <<ldb, ck, cr, txs, everPruned>>
+     /\ UNCHANGED <<ldb, ck, cr, txs, everPruned, rolledRaw>>
 
 \* ... and write network, length, payload, checksum.
 WriteAt(F, f, off, n, whole, b, st) ==
@@ -382,7 +478,7 @@ StepWrite ==
        /\ wc' = [wc EXCEPT !.o = @ + wrote]
        /\ CStep([Faulted(res) EXCEPT !.ph = IF res = "ok" THEN NextW(cm.ph) ELSE "rb"],
                 [a |-> "io", op |-> "write", f |-> wc.f, res |-> res, part |-> cm.ph, n |-> n])
-       /\ UNCHANGED <<ldb, ck, cr, txs, everPruned>>
+       /\ UNCHANGED <<ldb, ck, cr, txs, everPruned, rolledRaw>>
 
 StepRow ==
   /\ cm.ph = "row"
@@ -390,7 +486,7 @@ StepRow ==
          loc == [f |-> wc.f, o |-> cm.st, l |-> RecLen(b)] IN
      /\ txs' = [txs EXCEPT ![W] = PutKey(t, IKey(b), loc)]
      /\ CStep([cm EXCEPT !.ph = "blk", !.i = @ + 1], Internal("row"))
-     /\ UNCHANGED <<ldb, ck, cr, files, wc, everPruned>>
+     /\ UNCHANGED <<ldb, ck, cr, files, wc, everPruned, rolledRaw>>
 
 \* blockStore.handleRollback(old): close + delete newer files, reopen,
 \* truncate, sync; every failure is only logged and the cursor is reset anyway.
@@ -404,7 +500,7 @@ StepRb ==
           /\ CStep([cm EXCEPT !.ph = "rbdel"], Internal("rb-close"))
      ELSE /\ CStep([cm EXCEPT !.ph = "rbopen"], Internal("rb-same-file"))
           /\ UNCHANGED wc
-  /\ UNCHANGED <<ldb, ck, cr, files, txs, everPruned>>
+  /\ UNCHANGED <<ldb, ck, cr, files, txs, everPruned, rolledRaw>>
 
 StepRbDel ==
   /\ cm.ph = "rbdel"
@@ -415,7 +511,7 @@ StepRbDel ==
      /\ CStep([Faulted(res) EXCEPT !.ph = IF ~ok THEN "rbend"
                                            ELSE IF wc.f - 1 > cm.old.f THEN "rbdel" ELSE "rbopen"],
               Io("delete", wc.f, IF ok THEN "ok" ELSE "fail"))
-     /\ UNCHANGED <<ldb, ck, cr, txs, everPruned>>
+     /\ UNCHANGED <<ldb, ck, cr, txs, everPruned, rolledRaw>>
 
 StepRbOpen ==
   /\ cm.ph = "rbopen"
@@ -429,7 +525,7 @@ StepRbOpen ==
              ELSE UNCHANGED <<wc, files>>
           /\ CStep([Faulted(res) EXCEPT !.ph = IF res = "ok" THEN "rbtrunc" ELSE "rbend"],
                    Io("openwrite", wc.f, res))
-  /\ UNCHANGED <<ldb, ck, cr, txs, everPruned>>
+  /\ UNCHANGED <<ldb, ck, cr, txs, everPruned, rolledRaw>>
 
 Truncate(F, f, to) ==
   [F EXCEPT ![f] = [len |-> to, synced |-> Min(@.synced, to),
@@ -441,7 +537,7 @@ StepRbTrunc ==
      /\ files' = IF res = "ok" THEN Truncate(files, wc.f, cm.old.o) ELSE files
      /\ CStep([Faulted(res) EXCEPT !.ph = IF res = "ok" THEN "rbsync" ELSE "rbend"],
               Io("truncate", wc.f, res))
-     /\ UNCHANGED <<ldb, ck, cr, wc, txs, everPruned>>
+     /\ UNCHANGED <<ldb, ck, cr, wc, txs, everPruned, rolledRaw>>
 
 SyncFile(F, f) == [F EXCEPT ![f].synced = F[f].len]
 
@@ -449,6 +545,7 @@ StepRbSync ==
   /\ cm.ph = "rbsync"
   /\ \E res \in Fails :
      /\ files' = IF res = "ok" THEN SyncFile(files, wc.f) ELSE files
+     /\ rolledRaw' = IF res = "ok" THEN rolledRaw \ {wc.f} ELSE rolledRaw
      /\ CStep([Faulted(res) EXCEPT !.ph = "rbend"], Io("sync", wc.f, res))
      /\ UNCHANGED <<ldb, ck, cr, wc, txs, everPruned>>
 
@@ -456,14 +553,14 @@ StepRbEnd ==
   /\ cm.ph = "rbend"
   /\ wc' = [wc EXCEPT !.f = cm.old.f, !.o = cm.old.o]
   /\ CStep([cm EXCEPT !.ph = "end", !.err = TRUE], Internal("rb-reset"))
-  /\ UNCHANGED <<ldb, ck, cr, files, txs, everPruned>>
+  /\ UNCHANGED <<ldb, ck, cr, files, txs, everPruned, rolledRaw>>
 
 \* 3. the write cursor row joins the pending keys.
 StepWloc ==
   /\ cm.ph = "wloc"
   /\ txs' = [txs EXCEPT ![W] = PutKey(txs[W], WKey, [f |-> wc.f, o |-> wc.o])]
   /\ CStep([cm EXCEPT !.ph = IF cm.fl THEN "sync" ELSE "merge"], Internal("wloc"))
-  /\ UNCHANGED <<ldb, ck, cr, files, wc, everPruned>>
+  /\ UNCHANGED <<ldb, ck, cr, files, wc, everPruned, rolledRaw>>
 
 \* 4a. dbCache.commitTx without flush: merge into the cache.
 StepMerge ==
@@ -472,7 +569,7 @@ StepMerge ==
      /\ ck' = Overlay(ck, t.pk, t.pr)
      /\ cr' = (cr \ DOMAIN t.pk) \cup t.pr
   /\ CStep([cm EXCEPT !.ph = "end"], Internal("merge"))
-  /\ UNCHANGED <<ldb, files, wc, txs, everPruned>>
+  /\ UNCHANGED <<ldb, files, wc, txs, everPruned, rolledRaw>>
 
 \* 4b. with flush: sync the current block file, one leveldb transaction for
 \* the cache, one for the transaction itself.
@@ -486,7 +583,7 @@ StepSync ==
           /\ CStep(IF res = "ok" THEN [cm EXCEPT !.ph = "fldb"]
                    ELSE [Faulted(res) EXCEPT !.ph = "end", !.err = TRUE],
                    Io("sync", wc.f, res))
-  /\ UNCHANGED <<ldb, ck, cr, wc, txs, everPruned>>
+  /\ UNCHANGED <<ldb, ck, cr, wc, txs, everPruned, rolledRaw>>
 
 StepFldb ==
   /\ cm.ph = "fldb"
@@ -503,7 +600,7 @@ StepFldb ==
           /\ cm' = IF res = "ok" THEN [cm EXCEPT !.ph = "tldb"]
                    ELSE [Faulted(res) EXCEPT !.ph = "end", !.err = TRUE]
           /\ last' = Io("ldbcommit", 0, res)
-  /\ UNCHANGED <<files, wc, txs, model, up, everPruned, cnt>>
+  /\ UNCHANGED <<files, wc, txs, model, up, everPruned, rolledRaw, cnt>>
 
 StepTldb ==
   /\ cm.ph = "tldb"
@@ -512,7 +609,7 @@ StepTldb ==
      /\ CStep(IF res = "ok" THEN [cm EXCEPT !.ph = "end"]
               ELSE [Faulted(res) EXCEPT !.ph = "end", !.err = TRUE],
               Io("ldbcommit", 0, res))
-     /\ UNCHANGED <<ck, cr, files, wc, txs, everPruned>>
+     /\ UNCHANGED <<ck, cr, files, wc, txs, everPruned, rolledRaw>>
 
 \* 5. Commit returns; the transaction is closed either way.
 CommitEnd ==
@@ -523,7 +620,7 @@ CommitEnd ==
   /\ recov' = IF cm.err THEN recov
               ELSE IF cm.fl THEN {txs[W].m} ELSE recov \cup {txs[W].m}
   /\ last' = [a |-> "CommitEnd", err |-> cm.err]
-  /\ UNCHANGED <<ldb, ck, cr, files, wc, up, everPruned, cnt>>
+  /\ UNCHANGED <<ldb, ck, cr, files, wc, up, everPruned, rolledRaw, cnt>>
 
 CommitSteps ==
   \/ StepDel \/ StepBlk \/ StepOpen \/ StepWrite \/ StepRow
@@ -551,7 +648,7 @@ Crash ==
   \* an in-flight commit may or may not have become durable
   /\ recov' = recov \cup (IF cm.ph # "none" THEN {txs[W].m} ELSE {})
   /\ last' = [a |-> "Crash", power |-> PowerLoss]
-  /\ UNCHANGED <<ldb, model, everPruned>>
+  /\ UNCHANGED <<ldb, model, everPruned, rolledRaw>>
 
 \* What Open does to the block files given the durable cursor row.  The
 \* result carries ok = FALSE when reconcileDB reports corruption.
@@ -579,7 +676,7 @@ Reopen ==
      /\ model' = Abs(ldb)
      /\ recov' = {Abs(ldb)}
      /\ last' = [a |-> "Reopen", ok |-> r.ok]
-  /\ UNCHANGED <<ldb, ck, cr, txs, cm, everPruned, cnt>>
+  /\ UNCHANGED <<ldb, ck, cr, txs, cm, everPruned, rolledRaw, cnt>>
 
 \* Clean shutdown and restart: Close flushes (sync + one leveldb transaction),
 \* Open reconciles.
@@ -595,7 +692,7 @@ Restart ==
      /\ recov' = {model}
      /\ last' = [a |-> "Restart", ok |-> r.ok]
   /\ cnt' = [cnt EXCEPT !.crash = @ + 1]
-  /\ UNCHANGED <<txs, cm, model, everPruned>>
+  /\ UNCHANGED <<txs, cm, model, everPruned, rolledRaw>>
 
 -----------------------------------------------------------------------------
 Ops ==
@@ -605,6 +702,7 @@ Ops ==
   \/ \E p \in BPaths : CreateBucket(p) \/ DeleteBucket(p)
   \/ \E b \in Blocks : StoreBlock(b) \/ StoreDup(b)
   \/ Prune
+  \/ (MaxCur > 0 /\ CurOps)
   \/ \E fl \in BOOLEAN : CommitStart(fl)
 
 Next ==
@@ -624,7 +722,7 @@ Spec == Init /\ [][Next]_vars
 Shows(E, pend, m) ==
   /\ AbsKV(E) = m.kv
   /\ AbsBlk(E) \cup pend = m.blk
-  /\ Unreadable(E, files) \ pend \subseteq PruneDangling(E, files)
+  /\ Unreadable(E, files) \ pend \subseteq Excused(E, files)
 
 \* Atomicity: between transactions the store shows the committed model; a
 \* failed or rolled-back transaction leaves it unchanged, a successful one
@@ -644,7 +742,7 @@ DurableNow ==
       allowed == recov \cup (IF cm.ph # "none" THEN {txs[W].m} ELSE {}) IN
   /\ r.ok
   /\ Abs(ldb) \in allowed
-  /\ Unreadable(ldb, r.files) \subseteq PruneDangling(ldb, r.files)
+  /\ Unreadable(ldb, r.files) \subseteq Excused(ldb, r.files)
 PrefixDurability == up => DurableNow
 
 ReopenOK == (last.a \in {"Reopen", "Restart"}) => up
